@@ -22,7 +22,7 @@ except Exception as e:  # import of the package under test failed, etc.
 WRITE_OPS = {"AddPage", "AddPages", "AddLinks", "IndexBatchCrawl"}
 WE_OPS = {"CreateWe", "DeleteWe", "AddPrefix", "RemovePrefix", "MovePrefix"}
 RULE_OPS = {"AddRule", "RemoveRule"}
-LIFE_OPS = {"Init", "Reopen", "Clear"}
+LIFE_OPS = {"Init", "Reopen", "Clear", "Recreate"}
 ALL_OPS = WRITE_OPS | WE_OPS | RULE_OPS | LIFE_OPS
 
 BASE_PROFILE = {"nlrus": 14, "long": 0.35, "raw": 0.2, "prefixy": 0.25, "adversarial": 0.0}
@@ -114,9 +114,9 @@ reg("C10", exc_ops=set(), nontrivial=nt_links, hook="paglinks", obs_fail=False,
              "Clear": 0, "DeleteWe": 1, "RemovePrefix": 1, "MovePrefix": 2},
     profile={"raw": 0.0, "long": 0.2, "nlrus": 16, "extend": 0.2, "continue": 0.8, "concentrate": 1}, steps=(24, 32),
     title="Pagelink pagination")
-reg("C11", exc_ops={"Reopen", "Clear"}, nontrivial=nt_pages, hook="life",
+reg("C11", exc_ops={"Reopen", "Clear", "Recreate"}, nontrivial=nt_pages, hook="life",
     roles=[("file", ()), ("file", ("Reopen",))], pairname="C11.twin", prefixes=["C11."],
-    weights={"Reopen": 24, "Clear": 5, "AddRule": 8, "CreateWe": 16, "DeleteWe": 6, "AddPage": 26},
+    weights={"Reopen": 24, "Clear": 5, "Recreate": 3, "AddRule": 8, "CreateWe": 16, "DeleteWe": 6, "AddPage": 26},
     profile={"raw": 0.1, "long": 0.3, "nlrus": 12}, n=(60, 600), steps=(16, 24), title="Close/reopen/clear")
 reg("C12", exc_ops=set(), nontrivial=nt_we, mc=[("core", 4, 5), ("we", 4, 5)], gen_mc="we",
     weights={"CreateWe": 14, "DeleteWe": 8, "Reopen": 18, "AddRule": 10, "Clear": 3, "AddPage": 26},
@@ -131,7 +131,7 @@ reg("C14", exc_ops=set(), nontrivial=nt_pages, hook="readonly", obs_fail=False,
     title="Queries never modify")
 reg("C15", exc_ops=ALL_OPS, nontrivial=nt_long, hook="pair",
     roles=[("file", ()), ("memory", ())], pairname="C15.pair", prefixes=["C15."], prehook=hooks.prehook_mmap,
-    weights={"Reopen": 0, "Clear": 3, "AddRule": 6},
+    weights={"Reopen": 0, "Clear": 3, "Recreate": 3, "AddRule": 6},
     profile={"raw": 0.3, "long": 0.7, "nlrus": 10}, n=(40, 500), steps=(12, 20), title="Memory == file")
 reg("C19", exc_ops=set(), nontrivial=nt_long, hook="metrics",
     profile={"long": 0.9, "raw": 0.3}, title="Storage accounting")
